@@ -35,7 +35,9 @@ type Cluster struct {
 	Fault func(c *Conn, st *Stmt) *FaultAction
 	// OnStmt observes every command after the session model was updated.
 	OnStmt func(c *Conn, st *Stmt)
-	Salt   byte
+	// OnReceive runs when a command has been read, before anything else.
+	OnReceive func(c *Conn, st *Stmt)
+	Salt      byte
 }
 
 type Backend struct {
@@ -80,6 +82,7 @@ type Snapshot struct {
 }
 
 type Stmt struct {
+	Ev      int64 // global event stamp given by the harness (OnReceive)
 	Seq     int
 	At      time.Duration
 	Backend string
@@ -294,6 +297,9 @@ func (c *Conn) command(pkt []byte) bool {
 		return c.pc.WritePacket(myproto.ERR(1047, "08S01", "Unknown command")) == nil
 	}
 	cl.Log = append(cl.Log, st)
+	if cl.OnReceive != nil {
+		cl.OnReceive(c, st)
+	}
 	c.Stmts++
 	var fa *FaultAction
 	if cl.Fault != nil {
